@@ -140,7 +140,7 @@ func waitFor(cond func() bool, d time.Duration) bool {
 }
 
 func propC12Sequential(t *rapid.T) {
-	size := rapid.OneOf(rapid.IntRange(1, 64), rapid.SampledFrom([]int{1, 2, 16, 64, 4096})).Draw(t, "size")
+	size := rapid.OneOf(rapid.IntRange(1, 64), rapid.SampledFrom([]int{1, 2, 16, 64, 4096}), rapid.SampledFrom([]int{4095, 4097, 5000, 8191, 10000})).Draw(t, "size")
 	clk := &handClock{}
 	sink := &opSink{}
 	bws := &zapcore.BufferedWriteSyncer{WS: sink, Size: size, FlushInterval: time.Duration(rapid.IntRange(0, 3).Draw(t, "flushInterval")) * time.Second, Clock: clk}
